@@ -214,11 +214,11 @@ ActionClauses(e) ==
              \o Chk(Means(tw.items) = Means(pre.items) /\ Seqs(tw.items) = Seqs(pre.items) /\ SameSettings(tw, pre)
                     /\ (e.act = "Reparse" \/ ~CanonicalGrouping(pre) \/ Struct(tw.items) = Struct(pre.items)), e,
                     IF DupHead(pre) THEN "C15.duplicate-heading-remark-dropped-by-regrouping"
-                    ELSE IF e.act = "Reparse" THEN "C17.text-does-not-parse-back-to-itself" ELSE "C16.copy-not-equal")
+                    ELSE IF e.act = "Reparse" THEN "C06.text-of-a-live-list-does-not-parse-back-to-itself" ELSE "C16.copy-not-equal")
              \o Chk(e.act = "Reparse" \/ Struct(tw.items) # Struct(pre.items) \/ BlockSeqs(tw.items) = BlockSeqs(pre.items), e, "C16.copy-block-number-differs")
              \o Chk(e.twin_text_equal /\ (e.act = "Reparse" \/ ~CanonicalGrouping(pre) \/ e.twin_data_equal), e,
                     IF DupHead(pre) THEN "C15.duplicate-heading-remark-dropped-by-regrouping"
-                    ELSE IF e.act = "Reparse" THEN "C17.text-does-not-parse-back-to-itself" ELSE "C16.copy-text-or-data-differs")
+                    ELSE IF e.act = "Reparse" THEN "C06.text-of-a-live-list-does-not-parse-back-to-itself" ELSE "C16.copy-text-or-data-differs")
              \o (IF e.act = "Reparse" THEN <<>> ELSE
                  Chk(Notes(tw.items) = Notes(pre.items) /\ tw.note = pre.note, e, "C16.copy-lost-note")
                  \o Chk(e.act = "DataRoundTrip" \/ (AllIds(tw) \cap AllIds(pre)) \subseteq {""}, e, "C16.copy-shares-identifiers")
